@@ -37,6 +37,7 @@ impl<'a, P: Property> Exec<'a, P> {
     }
 
     pub fn exec(&mut self, case: &P::Case) -> Result<Outcome, Inconclusive> {
+        PROGRESS.fetch_add(1, Ordering::Relaxed);
         if !P::ISOLATED {
             return match super::panics::catch(|| self.prop.check(case)) {
                 Ok(o) => match &o.fail {
@@ -230,8 +231,34 @@ pub fn replay<P: Property>(tier: Tier, path: &std::path::Path) -> i32 {
     }
 }
 
+/// cases finished so far (all threads); the watchdog below ends the run with exit 2 when this
+/// does not move for a long time (a hang is never reported as a verdict)
+static PROGRESS: AtomicU64 = AtomicU64::new(0);
+const WATCHDOG_SECS: u64 = 900;
+
+fn start_watchdog(id: &'static str) {
+    std::thread::spawn(move || {
+        let mut last = PROGRESS.load(Ordering::Relaxed);
+        let mut since = Instant::now();
+        loop {
+            std::thread::sleep(Duration::from_secs(5));
+            let now = PROGRESS.load(Ordering::Relaxed);
+            if now != last {
+                last = now;
+                since = Instant::now();
+            } else if since.elapsed().as_secs() > WATCHDOG_SECS {
+                // stdout may be parked on /dev/null while cases run: report on stderr as well
+                eprintln!("INCONCLUSIVE property={id} watchdog: no case finished for {WATCHDOG_SECS} s (hang in the code under test or in the harness; not a verdict)");
+                println!("INCONCLUSIVE property={id} watchdog: no case finished for {WATCHDOG_SECS} s");
+                std::process::exit(2);
+            }
+        }
+    });
+}
+
 pub fn run<P: Property>(tier: Tier) -> i32 {
     let t0 = Instant::now();
+    start_watchdog(P::ID);
     let seed = seed_from_env();
     let prop = P::new(tier);
     let known: Vec<Finding> = known::load();
